@@ -34,7 +34,10 @@ def gen(rng, i, tier):
         n = int(rng.integers(4, 30))
         x = np.concatenate([np.arange(n), rng.integers(0, n, 5)]).astype(float)
         y = rng.integers(-5, 6, len(x)).astype(float)
-        return dict(entry="Pre_Proc.rebin", args=[tolist(x), tolist(y), 0.0, 1.0, float(n - 1)], kw={}, intvalued=True)
+        # 40%: an output grid twice as fine as the data (every second bin receives no weight at all): whatever the call does then —
+        # the pinned code raises ZeroDivisionError — it must do the same thing every time, whatever the heap held before
+        step = 0.5 if rng.random() < 0.4 else 1.0
+        return dict(entry="Pre_Proc.rebin", args=[tolist(x), tolist(y), 0.0, step, float(n - 1)], kw={}, intvalued=True)
     entry = ents[int(rng.integers(0, len(ents)))]
     c = cases.make_case(rng, entry, maxn=40)
     intv = bool(rng.random() < 0.4)
